@@ -41,6 +41,9 @@ pub enum ValSpec {
 	FromDistance { input: (f64, f64), out: (f64, f64), easing: Easing },
 }
 
+/// the far end of the legal delays: `Duration::MAX` (coded as infinity), `u64::MAX` seconds (coded as 1.8e19), a billion seconds
+pub const EXTREME_DELAYS: [f64; 3] = [f64::INFINITY, 1.8e19, 1e9];
+
 #[derive(Clone, Debug)]
 pub enum StartSpec {
 	Immediate,
@@ -100,7 +103,7 @@ impl TweenSpec {
 	pub fn gen(r: &mut Rng) -> TweenSpec {
 		TweenSpec {
 			start: match r.below(8) {
-				0 => StartSpec::Delayed(if r.chance(0.3) { 0.0 } else { r.f64_in(0.0, 0.05) }),
+				0 => StartSpec::Delayed(if r.chance(0.3) { 0.0 } else if r.chance(0.15) { *r.pick(&EXTREME_DELAYS) } else { r.f64_in(0.0, 0.05) }),
 				1 => StartSpec::Clock { c: r.below(4) as usize, ticks: r.f64_in(0.0, 8.0) },
 				_ => StartSpec::Immediate,
 			},
@@ -247,7 +250,7 @@ impl SoundX {
 			pan: ValSpec::gen(r, -1.0, 1.0, &[0.0, -1.0, 1.0, 1.5, -1.5]),
 			fade_in: if r.chance(0.25) { Some(TweenSpec::gen(r)) } else { None },
 			start_time: match r.below(6) {
-				0 => StartSpec::Delayed(r.f64_in(0.0, 0.05)),
+				0 => StartSpec::Delayed(if r.chance(0.15) { *r.pick(&EXTREME_DELAYS) } else { r.f64_in(0.0, 0.05) }),
 				1 => StartSpec::Clock { c: r.below(4) as usize, ticks: r.f64_in(0.0, 6.0) },
 				_ => StartSpec::Immediate,
 			},
@@ -674,6 +677,8 @@ impl World {
 	fn start(&self, s: &StartSpec) -> StartTime {
 		match s {
 			StartSpec::Immediate => StartTime::Immediate,
+			StartSpec::Delayed(d) if *d == f64::INFINITY => StartTime::Delayed(Duration::MAX),
+			StartSpec::Delayed(d) if *d >= 1.8e19 => StartTime::Delayed(Duration::from_secs(u64::MAX)),
 			StartSpec::Delayed(d) => StartTime::Delayed(Duration::from_secs_f64(*d)),
 			StartSpec::Clock { c, ticks } => {
 				let live: Vec<&ClockHandle> = self.clocks.iter().flatten().collect();
